@@ -101,6 +101,9 @@ def finish(prop, tier, level, merged_list, t0, rule_text, assumptions, extra_cov
                 print(f"HARNESS-ERROR reproduce raised {type(e).__name__}: {e}")
             finally:
                 signal.setitimer(signal.ITIMER_REAL, 0)
+            if again is not None:
+                ctx = explore.context_of(v["item"])
+                again = set(again) | {a + "|" + ctx[0] for a in again} if ctx else set(again)
             if again is None or ks not in again:
                 print(f"HARNESS-ERROR non-reproducible outcome property={prop} key={ks}")
                 status = 2
